@@ -118,8 +118,11 @@ CLAIMS.update({
               'origin wherever that origin would be accepted, and is never the cause of a refusal. Two runs: two_run_corr / compress_same_ops_structure - under GrowHyps (li '
               'operands label-free, call/tail targets are labels, aligns >= 1, program < 2 GiB) the decided item lists of the run without and '
               'with -c correspond item by item: same item, or an instruction and its recorded compression decision, or a far auipc+jalr pair '
-              'against a near jal (lockstep through the pseudo-instruction pass, pseudo_lockstep_corr). NOT one theorem over both final byte '
-              'strings: the per-decision semantics are the single-run theorems above, read at the -c run\'s final tables. Explored as well: every instruction line of every generated '
+              'against a near jal (lockstep through the pseudo-instruction pass, pseudo_lockstep_corr). two_outputs_corr - over BOTH final byte strings: corresponding '
+              'items are placed at their offsets q0 / q1 of the two outputs; the same label-free item gives identical bytes; the same 32-bit '
+              'transfer decodes in both to the same instruction retargeted to the same LABEL; a compressed instruction decodes to a legal '
+              'RVC instruction that executes like the 32-bit word of the other run (label-free) or like the same transfer to the same label. '
+              'Not stated: a whole-program execution simulation (link registers hold layout-dependent addresses). Explored as well: every instruction line of every generated '
               'program is assembled both ways by the real assembler and both encodings are executed by the Lean specification from 8 register '
               'files; registers written, stores and the control-transfer target (mapped through both label tables) must agree, data bytes '
               'must be identical. Known findings KF-A4, KF-A7 (decisions taken on label-dependent values that later move) are exactly the '
@@ -143,14 +146,21 @@ CLAIMS.update({
         ref='DESIGN.md §5 C05'),
     'C12': dict(
         category='proof',
-        technique='Lean 4 theorem: each compression rule preserves acceptance (compress_preserves_success_local, 29 criteria) + outcome pairs (without / with -c) on generated programs',
+        technique='Lean 4 theorems: compress_preserves_success_program (two-run, program level, under hypotheses each forced by a real counterexample), compress_preserves_success_local (29 criteria), counterexample theorems for the unrestricted statement + outcome pairs (without / with -c) on generated programs',
         text=('Theorems: for every criterion, every instruction and every evaluation of its immediates: if the predicates hold and the '
               '32-bit instruction encodes, the replacement form encodes too, to 2 bytes (compress_preserves_success_local / _model, via '
               'rule_in_range: the replacement operands are legal for the compressed encoder). C04.compressed_never_refused: a compression '
               'decision on a label-free or label-transfer origin is never the cause of a refusal. The whole-program statement is FALSE even '
               'without label arithmetic and with even aligns: align_grows_distance (kernel-checked on the model, confirmed on the real '
-              'assembler, KF-F) - a branch distance across an align can grow with -c; the statement that remains plausible '
-              '(compress_preserves_success_statement2: no align between a transfer and its target) is kept as a def, not proved. Explored: each generated program is assembled both ways by the real assembler; '
+              'assembler, KF-F) - a branch distance across an align can grow with -c; the next candidate statement is false too '
+              '(statement2_false: a branch to a CONSTANT address gets farther, KF-G). PROVED at program level: '
+              'compress_preserves_success_program - if the run without -c succeeds then the run with -c succeeds, under hypotheses that are '
+              'predicates on the program and the hooks: GrowHyps (li operands label-free, call/tail targets are labels, aligns >= 1, < 2 GiB), '
+              'SrcOK (every instruction immediate is label-free or a branch/jal %offset to a LABEL that no constant shadows; data immediates '
+              'label-free; pseudo transfer targets are labels), AlignFreeTransfers (no align between a transfer and its target), NearRefs '
+              '(pessimistic distances below 1 MiB; holds for every program below 1 MiB), and LitOK / Neg1OK / OffsetHook of the hooks, which '
+              'the text front end satisfies (textHooks_hooks). Each hypothesis is forced by a real counterexample (KF-A3, KF-B, KF-B2, KF-F, '
+              'KF-G); EvenAligns is not needed. Explored: each generated program is assembled both ways by the real assembler; '
               'success without -c and failure with -c is a violation unless the failing line is in the known-finding classes KF-A3 / KF-B '
               '(a compression rule consulted a label-dependent immediate that later left the compressed operand set) or KF-E (alignment to an odd boundary: distances do not keep their parity - found by the proof attempt; C04.compressed_never_refused shows that label-free and label-transfer decisions are otherwise never the cause).'),
         note=TB,
